@@ -66,6 +66,47 @@ func (w *World) mapLiteral(pkgPath, name string) ([]litEntry, bool) {
 			}
 		}
 	}
+	// not a literal: a map filled by constant assignments in init()  (m[K] = V)
+	for _, p := range w.Pkgs {
+		if p.PkgPath != pkgPath {
+			continue
+		}
+		var out []litEntry
+		found := false
+		for _, f := range p.Syntax {
+			for _, d := range f.Decls {
+				fd, ok := d.(*ast.FuncDecl)
+				if !ok || fd.Name.Name != "init" || fd.Recv != nil || fd.Body == nil {
+					continue
+				}
+				for _, stmt := range fd.Body.List {
+					as, ok := stmt.(*ast.AssignStmt)
+					if !ok || len(as.Lhs) != 1 || len(as.Rhs) != 1 {
+						continue
+					}
+					ix, ok := as.Lhs[0].(*ast.IndexExpr)
+					if !ok {
+						continue
+					}
+					id, ok := ix.X.(*ast.Ident)
+					if !ok || id.Name != name {
+						continue
+					}
+					kt, vt := p.TypesInfo.Types[ix.Index], p.TypesInfo.Types[as.Rhs[0]]
+					if kt.Value == nil || vt.Value == nil || kt.Value.Kind() != constant.Int || vt.Value.Kind() != constant.Int {
+						return nil, false
+					}
+					k, _ := new(big.Int).SetString(kt.Value.ExactString(), 10)
+					v, _ := new(big.Int).SetString(vt.Value.ExactString(), 10)
+					out = append(out, litEntry{k, v})
+					found = true
+				}
+			}
+		}
+		if found {
+			return out, true
+		}
+	}
 	return nil, false
 }
 
